@@ -246,6 +246,15 @@ def sc_interrupt_in_callback():
         _expect("interrupt-in-callback", r["app"].sock, None, "socket after the run")
 
 
+def sc_interrupt_in_on_close():
+    """close() from a callback, then KeyboardInterrupt raised by on_close during the final teardown: run_forever still returns."""
+    r = run_app([[("send", F(1, 1, b"1")), ("sleep", 0.3)]], behaviours={"on_message": "close", "on_close": "interrupt"})
+    want = [("on_open",), ("on_data", "1", 1, True), ("on_message", "1"), ("on_close", None, None)]
+    return _expect("interrupt-in-on_close", strip(r["trace"]), want, "callback trace") + \
+        _expect("interrupt-in-on_close", r["results"], [False], "return value (no error was reported)") + \
+        _expect("interrupt-in-on_close", r["app"].sock, None, "socket after the run")
+
+
 def sc_close_in_open():
     r = run_app([[("sleep", 0.3)]], behaviours={"on_open": "close"})
     return _expect("close-in-open", strip(r["trace"]), [("on_open",), ("on_close", None, None)], "callback trace") + \
@@ -352,11 +361,12 @@ def sc_detect_window(interval=0.24, timeout=0.2):
 SCENARIOS = dict(detect_window=sc_detect_window, traffic=sc_traffic, eof=sc_eof, callback_raises=sc_callback_raises, close_in_open=sc_close_in_open,
                  close_in_message=sc_close_in_message, protocol_error=sc_protocol_error, second_run=sc_second_run,
                  close_empty_body=sc_close_empty_body, reconnect=sc_reconnect, close_no_reconnect=sc_close_no_reconnect, ping=sc_ping,
-                 ping_timeout=sc_ping_timeout, interrupt_in_callback=sc_interrupt_in_callback)
+                 ping_timeout=sc_ping_timeout, interrupt_in_callback=sc_interrupt_in_callback,
+                 interrupt_in_on_close=sc_interrupt_in_on_close)
 BY_PROPERTY = {
     "C13": ["traffic", "callback_raises", "close_in_message"],
     "C14": ["traffic", "eof", "close_in_open", "close_in_message", "protocol_error", "second_run", "close_empty_body", "callback_raises",
-            "interrupt_in_callback"],
+            "interrupt_in_callback", "interrupt_in_on_close"],
     "C15": ["reconnect", "close_no_reconnect", "eof"],
     "C16": ["ping", "ping_timeout"],
 }
